@@ -141,12 +141,12 @@ C16 == \A o \in rets' : o.fn = "pay" =>
 (* AUDIT  the per-attempt audit record agrees with ground truth: an attempt is recorded as  *)
 (*        succeeded only when a part of the hash is complete and the state record says so,  *)
 (*        and as failed only when nothing of the hash is pending or complete                *)
-AttChanged(h, a) == a \in DOMAIN att'[h] /\ (a \notin DOMAIN att[h] \/ att[h][a] # att'[h][a])
+AttChanged(h, a) == a \in DOMAIN att'[h] /\ (a \notin DOMAIN att[h] \/ att[h][a].st # att'[h][a].st)
 Audit == \A h \in Hashes : \A a \in DOMAIN att'[h] :
            AttChanged(h, a) =>
-             /\ (att'[h][a] = "ok" => Completed(h) /\ ds[h].st = "succeeded")
-             /\ (att'[h][a] = "failed" => ~Live(h))
-             /\ (att'[h][a] = "open" => ds[h].st = "pending" /\ ds[h].a = a)
+             /\ (att'[h][a].st = "ok" => Completed(h) /\ ds[h].st = "succeeded")
+             /\ (att'[h][a].st = "failed" => ~Live(h))
+             /\ (att'[h][a].st = "open" => ds[h].st = "pending" /\ ds[h].a = a)
 
 (* C13  non-trampoline HTLCs: answered `continue` in the arrival step,     *)
 (*      no RPC, nothing else touched                                       *)
